@@ -375,3 +375,34 @@ func groupSummaries(p *load.Prog, m *elemModel, d *groupDomain, from *ssa.Functi
 	sort.Strings(desc)
 	return sums, desc
 }
+
+// decodeXY decodes a formal point from its x and y coordinates only (affine points whose z is not meaningful).
+func (d *groupDomain) decodeXY(x, y *absint.Poly) (gelt, string) {
+	dec := func(p *absint.Poly, axis int) (gelt, string) {
+		g := gelt{}
+		parts, ok := p.LinearParts()
+		if !ok {
+			return nil, "coordinate is not a combination of formal coordinates"
+		}
+		for _, pt := range parts {
+			e, ok := d.byVar[pt.Var]
+			if pt.Var == "" || !ok || e.axis != axis {
+				return nil, "coordinate is not a formal coordinate"
+			}
+			g = g.add(e.g.mulPred(pt.Weight), 1)
+		}
+		return g, ""
+	}
+	gx, w := dec(x, 0)
+	if w != "" {
+		return nil, w
+	}
+	gy, w := dec(y, 1)
+	if w != "" {
+		return nil, w
+	}
+	if gx.key() != gy.key() {
+		return nil, "x and y describe different points"
+	}
+	return gx, ""
+}
